@@ -93,7 +93,8 @@ def gen_bad_action(g, dv):
   choices = ["unknown_table", "too_high_id"]
   if ts:
     choices += ["unknown_col", "missing_row", "formula_write", "unknown_col_remove", "dup_id",
-                "bad_upsert", "remove_missing_table_col"]
+                "bad_upsert", "remove_missing_table_col", "bad_type_modify", "bad_type_meta",
+                "bad_type_add", "remove_missing_table"]
   kind = rng.choice(choices)
   t = rng.choice(ts) if ts else None
   if kind == "unknown_table":
@@ -122,6 +123,19 @@ def gen_bad_action(g, dv):
     return "unknown_col", ["AddRecord", t.tableId, None, {"no_such_col": 1}]
   if kind == "bad_upsert":
     return kind, ["BulkAddOrUpdateRecord", t.tableId, {}, {}, {"on_many": "bogus"}]
+  if kind in ("bad_type_modify", "bad_type_meta"):
+    # a type name that does not exist: the failure strikes while the new column object is built
+    cols = [c for c in t.user_cols() if not c.summarySourceCol]
+    if cols:
+      c = rng.choice(cols)
+      if kind == "bad_type_modify":
+        return kind, ["ModifyColumn", t.tableId, c.colId, {"type": rng.choice(["Bogus", "Integer", "ref:" + t.tableId])}]
+      return kind, ["UpdateRecord", "_grist_Tables_column", c.ref, {"type": "NoSuchType"}]
+    return "unknown_col", ["AddRecord", t.tableId, None, {"no_such_col": 1}]
+  if kind == "bad_type_add":
+    return kind, ["AddColumn", t.tableId, g.new_col_id("b"), {"type": "Bogus", "isFormula": False}]
+  if kind == "remove_missing_table":
+    return kind, ["RemoveTable", "NoSuchTable"]
   return kind, ["RenameColumn", t.tableId, "no_such_col", "x"]
 
 
